@@ -668,6 +668,18 @@ with PolarsImpl.impl_store.impl_manager as impl:
             return (x / (10**-digits)).round() * (10**-digits)
         return x.round(digits)
 
+    @impl(ops.round, Int(), Int())
+    def _round_int(x, digits):
+        digits = pl.select(digits).item()
+        if digits >= 0:
+            return x
+        # stay in integer arithmetic (the result type is the integer type of `x`); ties go to the even multiple
+        p = 10**-digits
+        rem = x % p
+        down = x - rem
+        up = (rem * 2 > p) | ((rem * 2 == p) & ((down // p) % 2 == 1))
+        return pl.when(up).then(down + p).otherwise(down)
+
     @impl(ops.exp)
     def _exp(x):
         return x.exp()
@@ -780,7 +792,8 @@ with PolarsImpl.impl_store.impl_manager as impl:
 
     @impl(ops.clip)
     def _clip(x, lower, upper):
-        return x.clip(lower, upper)
+        # `Expr.clip` casts the bounds to the type of `x` (float bounds on an integer column)
+        return pl.when(x.is_not_null()).then(pl.max_horizontal(pl.min_horizontal(x, upper), lower))
 
     @impl(ops.rand)
     def _rand():
